@@ -143,6 +143,18 @@ impl Prop for C02Prop {
                 }
             }
             p.extend_from_slice(&data);
+            if i % 5 == 4 {
+                // inside the open frame: an escape code that looks like a restart but is none,
+                // followed by a body - only a decoder that took it for a restart will find a
+                // checksum it likes
+                p.extend_from_slice(&[0x1b; 4]);
+                let code: [u8; 4] = [[0x01, 0x02, 0x03, 0x04], [0x01, 0x01, 0x01, 0x00], [0x01, 0xff, 0x01, 0x01], [0x01, 0x01, 0x1b, 0x01]][rng.below(4)];
+                p.extend_from_slice(&code);
+                let m = 4 * rng.below(3);
+                for k in 0..m {
+                    p.push(0x60 + k as u8);
+                }
+            }
             match i % 4 {
                 0 => p.extend_from_slice(&[0x1b; 8]),
                 1 => {
